@@ -112,6 +112,9 @@ var Projections = map[string]*Projection{
 	// TLS upgrade: reply kinds inside and outside the TLS session, raw-wire facts, callbacks
 	"C11": {Wire: true, Recv: map[string]fieldSet{"*": kinds, "ssl": fs("b"), "R": fs("code")},
 		Cb: map[string]fieldSet{"*": fs("q", "def")}},
+	// isolation: everything a connection sees and everything its callbacks see, except row payload encodings
+	"C15": {Recv: map[string]fieldSet{"*": kinds, "S": fs("key", "val"), "T": fs("n", "names", "oids"), "D": fs("n", "cells"), "C": fs("tag"), "R": fs("code")},
+		Cb: map[string]fieldSet{"*": fs("q", "def", "si", "params", "ret", "written", "cp", "sp", "mw", "i", "intact")}},
 	"C20": {SkipPreamble: true, Recv: map[string]fieldSet{"*": kinds, "t": fs("n", "wf")},
 		Cb: map[string]fieldSet{"*": fs("q", "def")}},
 	"C09": {SkipPreamble: true, Recv: map[string]fieldSet{"*": kinds, "T": fs("n", "oids", "fmts"), "D": fs("n", "cells")},
